@@ -189,39 +189,47 @@ class HRobust(Harness):
 
 
 class HInitRetry(Harness):
-    """the `while not fitted` retry loop of init_and_train_gp; params: max_fail (<= 6)"""
+    """init_and_train_gp as a whole (GP construction, prior set-up, training options and noise estimate are stubs): the
+    retries of the initial fit; params: max_fail (<= 6)"""
     name = "H-RF/init"
     functions = (gptmod.init_and_train_gp,)
-    stubs_doc = ("gp.fit: LinAlgError on a symbolic schedule", "_get_random_samples_from_priors_: zeros")
-    _cache = {}
+    stubs_doc = ("gpr.GP: GP stub whose fit raises LinAlgError on a symbolic schedule", "_gp_hyp, _get_gp_training_options, _get_fevals_data, "
+                 "_estimate_noise_, mean/covariance pickers: constants", "_get_random_samples_from_priors_: zeros")
 
     def case(self, eng):
+        import types
         p = self.p
         max_fail = p.get("max_fail", 4)
-        src = open(gptmod.__file__).read()
-        loop = astcut.while_loop_in_function(src, "init_and_train_gp", "not fitted", "_retry")
-        import builtins
-        names = sorted({n.id for n in ast.walk(loop) if isinstance(n, ast.Name)} - set(gptmod.__dict__) - set(dir(builtins)))
-        code = "def _retry(_L):\n" + "\n".join(f"    if '{n}' in _L: {n} = _L['{n}']" for n in names) + "\n" + textwrap.indent(ast.unparse(loop), "    ") + "\n    return dict(locals())\n"
-        st = {"pybads.bads.gaussian_process_train": dict(_get_random_samples_from_priors_=lambda gp_: np.zeros((1, 3)))}
-        rb = Rebinder(eng.concrete, stubs=stubs(**st))
-        g = rb.globals_for("pybads.bads.gaussian_process_train")
-        exec(compile(code, f"<retry loop of init_and_train_gp {gptmod.__file__}:{loop.lineno}-{loop.end_lineno}>", "exec"), g)
         log = []
         gp = GPStub(eng, 2, max_fail, log)
+        gp.hyper_priors = {"mu": np.zeros(3)}
         X = np.zeros((3, 2)); Y = np.zeros((3, 1))
+        gpr_stub = types.SimpleNamespace(GP=lambda **k: gp, noise_functions=types.SimpleNamespace(GaussianNoise=lambda **k: None))
+        st = {"pybads.bads.gaussian_process_train": dict(
+            _get_random_samples_from_priors_=lambda gp_: np.zeros((1, 3)), gpr=gpr_stub,
+            _gp_hyp=lambda os_, o_, plb, pub, g, x, y, fl: (g, np.ones(3), 3),
+            _get_gp_training_options=lambda *a, **k: dict(init_N=1, opts_N=1, n_samples=3),
+            _get_fevals_data=lambda fl: (X, Y, None, None), _estimate_noise_=lambda g: 0.0,
+            _meanfun_name_to_mean_function=lambda n: None, _cov_identifier_to_covariance_function=lambda n: None)}
+        rb = Rebinder(eng.concrete, stubs=stubs(**st))
+        f = rb.func(gptmod.init_and_train_gp)
+        opts = cached_options(2, {})
+        os_ = dict(gp_mean_fun="const", gp_cov_fun=1, gp_noisefun=[1, 0, 0], iter=-1)
         out = Out()
         err = None
+        R = None
         try:
-            R = g["_retry"](dict(fitted=False, training_failures=0, gp=gp, x_train=X, y_train=Y, s2_train=None, hyp0=np.ones((2, 3)), gp_train={},
-                                 hyp_dict={"hyp": None}))
+            R = f({}, os_, None, None, opts, np.full(3, -1.0), np.full(3, 1.0))
         except Exception as e:
+            if type(e).__module__.startswith("symnp"):
+                raise
             err = e
         fits = [l for l in log if l[0] == "fit"]
         out.tag = dict(attempts=len(fits), err=type(err).__name__ if err else None)
         out.ob("linalg_failures_do_not_abort", err is None)
         if err is None:
-            out.ob("retries_until_success", R["fitted"] is True and len(fits) == gp.nfail[0] + 1 and R["training_failures"] == gp.nfail[0])
+            # the GP handed to the optimiser has been fitted: the last attempt is the one that did not fail
+            out.ob("retries_until_success", R[0] is gp and len(fits) == gp.nfail[0] + 1)
         return out
 
 
